@@ -51,6 +51,7 @@ class Resolver:
         self.impls = {}        # span -> (trait_base or None, self_base, header text, full trait text)
         self.by_trait_full = {}
         self.fn_impl = {}
+        self.env_for = {}
         self.crate_types = None
         self.by_type = {}      # (self_base, method) -> [names]
         self.by_trait = {}     # (trait_base, self_base, method) -> [names]
@@ -69,6 +70,11 @@ class Resolver:
                     self.by_trait.setdefault((tr, selfb, method), []).append(n)
                     self.by_trait_full.setdefault((self.impls[span][3], selfb, method), []).append(n)
                     self.fn_impl[n] = (tr, selfb)
+                    al = self.aliases().get(selfb)
+                    if al:      # `impl From<X> for HttpHandlerResult` is an impl for Result<..>
+                        ab = base_name(al)
+                        self.by_trait.setdefault((tr, ab, method), []).append(n)
+                        self.by_trait_full.setdefault((self.impls[span][3], ab, method), []).append(n)
                 else:
                     self.fn_impl[n] = (None, selfb)
             elif '<impl at' not in n:
@@ -141,10 +147,49 @@ class Resolver:
 
     # ------------------------------------------------------------------
     def resolve_fn(self, ex, callee):
-        if callee in self.cache: return self.cache[callee]
+        key = (callee, tuple(sorted(ex_type_env(ex).items())), ex.cur_fn[-1] if ex.cur_fn and '::' not in callee else None)
+        if key in self.cache: return self.cache[key]
         r = self._resolve_fn(ex, callee)
-        self.cache[callee] = r
+        self.cache[key] = r
         return r
+
+    def impl_block(self, span):
+        """source text of the impl block whose header is at `span`"""
+        m = re.match(r'^(.*?):(\d+):(\d+): (\d+):(\d+)$', span)
+        if not m: return ''
+        self.read_span(span)
+        lines = self.src_cache.get(os.path.join(self.repo, m.group(1)))
+        if not lines: return ''
+        text = '\n'.join(lines[int(m.group(4)) - 1:])
+        i = text.find('{')
+        if i < 0: return ''
+        depth = 0
+        for j in range(i, len(text)):
+            if text[j] == '{': depth += 1
+            elif text[j] == '}':
+                depth -= 1
+                if depth == 0: return text[i:j + 1]
+        return ''
+
+    def assoc_type(self, tr, selfb, name):
+        """`type NAME = ...;` of `impl tr for selfb`, read from the source"""
+        for span, (t, sb, text, full) in list(self.impls.items()):
+            if t == tr and sb == selfb:
+                mm = re.search(r'\btype\s+' + name + r'\s*=\s*([^;]+);', self.impl_block(span))
+                if mm: return mm.group(1).strip()
+        return None
+
+    def blanket_impl(self, tr, method):
+        """`impl<T> Trait for T`: the impl whose Self is one of its own type parameters"""
+        out = []
+        for n, (t, sb) in self.fn_impl.items():
+            if t == tr and n.split('::')[-1].split('#')[0] == method and '{closure' not in n:
+                span = re.search(r'<impl at ([^>]*?)>', n).group(1)
+                hdr = ' '.join(self.impls[span][2].split())
+                g = re.match(r'^impl\s*<([^>]*)>', hdr)
+                params = [x.split(':')[0].strip() for x in g.group(1).split(',')] if g else []
+                if sb in params: out.append(n)
+        return out
 
     def _pick(self, cands, callee):
         if not cands: return None
@@ -164,17 +209,40 @@ class Resolver:
                 elif ch == '>' and inner[i - 1] not in '-=': depth -= 1
                 elif depth == 0 and inner.startswith(' as ', i): cut = i
             if cut is None: return None
-            selfb, tr = base_name(inner[:cut]), base_name(inner[cut + 4:])
+            selfty = inner[:cut].strip()
+            tr = base_name(inner[cut + 4:])
             method = m.group(3)
+            pm = re.match(r'^<(.*) as (.*)>::(\w+)$', selfty)
+            if pm:
+                # associated-type projection, e.g. `<Self as HttpCodedResponse>::Body`
+                ps = base_name(pm.group(1)); ps = ex_type_env(ex).get(ps, ps)
+                at = self.assoc_type(base_name(pm.group(2)), ps, pm.group(3))
+                if at is None: return None
+                selfty = at
+            selfb = base_name(selfty)
             selfb = ex_type_env(ex).get(selfb, selfb)
             cands = self.by_trait.get((tr, selfb, method))
             if cands and len(cands) > 1:
-                full = self.by_trait_full.get((norm_ty(inner[cut + 4:]), selfb, method))
+                want = norm_ty(inner[cut + 4:])
+                full = self.by_trait_full.get((want, selfb, method))
                 if full: cands = full
+                else:
+                    # compare with the generic arguments of the trait's own argument dropped: From<HttpResponseOk<T>> ~ From<HttpResponseOk>
+                    def outer(t):
+                        m2 = re.match(r'^(\w+)<(.*)>$', t)
+                        return f'{m2.group(1)}<{base_name(m2.group(2))}>' if m2 else t
+                    sel = [n for n in cands if outer(self.impls[re.search(r'<impl at ([^>]*?)>', n).group(1)][3] or '') == outer(want)]
+                    if sel: cands = sel
             if cands: return self._pick(cands, callee)
-            # provided (default) trait method
+            # provided (default) trait method: runs with Self bound to the implementing type
             cands = self.trait_default.get((tr, method))
-            if cands and (tr, selfb) in self.trait_impls(): return self._pick(cands, callee)
+            if cands and (tr, selfb) in self.trait_impls():
+                self.env_for[callee] = {'Self': selfb}
+                return self._pick(cands, callee)
+            # blanket impl (`impl<T> Trait for T`) when Self is not a type with its own impl
+            if self.crate_types is None: self.macro_self(Dummy)
+            bl = self.blanket_impl(tr, method)
+            if bl and (selfb not in self.crate_types or len(selfb) == 1): return self._pick(bl, callee)
             return None
         c2 = _strip_generics(c)
         parts = [p for p in c2.split('::') if p]
@@ -199,6 +267,12 @@ class Resolver:
             elif len(cands) > 1: cands = [n for n in cands if '::' not in n] or cands
         if cands: return self._pick(cands, callee)
         return None
+
+    def aliases(self):
+        if not hasattr(self, '_aliases'):
+            from . import layout
+            self._aliases = layout.load(self.repo).aliases
+        return self._aliases
 
     def macro_self(self, f):
         """Self of an impl generated by macro_rules! (`impl $T`): the crate type named first in the signature"""
@@ -272,6 +346,10 @@ class Resolver:
                 inh = [n for n in cands if self.fn_impl.get(n, (None,))[0] is None]
                 if len(inh) == 1: return ex.call_fn(inh[0], [])
         return None
+
+
+class Dummy:
+    locals, args, ret = {}, [], ''
 
 
 def ex_type_env(ex):
